@@ -291,6 +291,10 @@ def check_parse_options(ctx, prog, accepted_redirect):
     O = ("g", "options_under_test")
     AV = ("g", "argv_under_test")
     states = []
+    # what the caller asked for and validation has no business changing (only unset redirects, a zero deadline and an all-noop stop
+    # policy are documented as being filled in)
+    KEEP = {"working_directory": fs(("str", "<working directory>")), "env.extra": fs(("str", "<extra>")), "nonblocking": fs(1)}
+    altered = set()
     for data, size, intype, fork, argv, deadline in itertools.product((0, 1), (0, 1), ("PIPE", "OTHER"), (0, 1), ("null", "empty", "ok"), (0, 1)):
         st = State()
         st.mon["nofail"] = True
@@ -300,6 +304,11 @@ def check_parse_options(ctx, prog, accepted_redirect):
         st.mem[("f", ("f", ("f", O, "redirect"), "in"), "type")] = fs(PIPE if intype == "PIPE" else PARENT)
         st.mem[("f", O, "fork")] = fs(fork)
         st.mem[("f", O, "deadline")] = I.pos() if deadline else fs(0)
+        for fld, val in KEEP.items():
+            c_ = O
+            for part in fld.split("."):
+                c_ = ("f", c_, part)
+            st.mem[c_] = val
         if "argv" not in p:
             pass
         elif argv == "null":
@@ -333,11 +342,20 @@ def check_parse_options(ctx, prog, accepted_redirect):
             for s, _ in accepts:
                 dv = s.mem.get(("f", O, "deadline"))
                 ok = ok and ((dv == fs(INF)) if not deadline else (dv == I.pos()))
+                for fld, val in KEEP.items():
+                    c_ = O
+                    for part in fld.split("."):
+                        c_ = ("f", c_, part)
+                    if s.mem.get(c_) != val:
+                        altered.add("%s: %s" % (fld, show(s.mem.get(c_))[:40]))
         ctx.ob("C13.A2o", "parse_options [input.data=%d size>0=%d stdin=%s fork=%d argv=%s deadline>0=%d]" % case,
                "start-up input needs a piped stdin and data for a size; fork mode needs argv == NULL and normal mode a non-empty argv; "
                "everything else is accepted and a zero deadline becomes 'none'", ok,
                {"documented": "reject" if reject else "accept", "code": sorted({show(rv) for s, rv in outs})}, nontrivial=True)
     ctx.floor("C13.A2o", 96)
+    ctx.ob("C13.A2k", "parse_options: what it leaves alone", "validation accepts the request as given: working directory, extra environment "
+           "and the nonblocking flag come out of it unchanged (a value start would otherwise have to fail on - an unusable directory - "
+           "must not be turned into 'not set')", not altered, {"altered": sorted(altered)[:4]}, nontrivial=True)
     ctx.ob("C13.A2n", "parse_options: width of the values tested", "no 64-bit option value (the input size) is narrowed to 32 bits before it is "
            "tested - a size that is a multiple of 2^32 would otherwise pass for zero", not narrowed, {"narrowing_casts": sorted(set(narrowed))[:4]},
            nontrivial=True)
